@@ -40,6 +40,7 @@ Section Queue.
   Notation qreach := (@qreach V Ch Req D candidate candidate_rb rollback_of overlay commit_merge payload record_applied
                               touched restore resync_payload doc_ok dev_apply stamp v_empty d_empty ch_empty).
   Notation apply_effs := (@apply_effs V Ch Req D dev_apply d_empty).
+  Notation wakes := (@wakes V Ch Req D).
   Notation J := (@J V Ch Req D).
 
   (** * Queued runs are runs of the protocol model *)
@@ -129,6 +130,68 @@ Section Queue.
     intros Ht Hi c o. destruct (fst (reconcile o (qw s) c)) as [|e r] eqn:E; [reflexivity|exfalso].
     destruct (Ht c o) as (c0 & Hin & _); [rewrite E; discriminate|].
     unfold idle in Hi. destruct (queue s); [destruct Hin|discriminate].
+  Qed.
+
+  (** * Every write wakes the ids that own or read the written record *)
+  (* the ids a write is guaranteed to put into the work set: the controller of the written record, the transaction of a
+     written proposal, and for a configuration the proposal, configuration and mastership controllers *)
+  Definition owners (e : eff) : list ctrl :=
+    match e with
+    | EPutTx i _ => [CtlTx i]
+    | EPutProp k _ => [CtlTx (snd k); CtlProp k]
+    | EPutCfg t c => [CtlProp (t, c_index c); CtlProp (t, c_applied c); CtlProp (t, c_proposed c); CtlCfg t; CtlMaster t]
+    | _ => []
+    end.
+  (* the entry write of a configuration happens only when the configuration exists *)
+  Definition lands (w : world) (e : eff) : Prop :=
+    match e with EPutCfg t _ => is_Some (cfgs w !! t) | _ => True end.
+
+  Lemma wakes_owners (w : world) (e : eff) c : lands w e -> In c (owners e) -> In c (wakes w e).
+  Proof.
+    destruct e as [i T|k P|k P|t c0|t c0|t v|t v|c0 t|c0|ev]; cbn [owners lands Proto2Queue.wakes]; intros Hl Hin;
+      try (destruct Hin; fail).
+    - unfold tx_wakes. destruct Hin as [<-|[]]. left. reflexivity.
+    - exact Hin.
+    - destruct Hl as [c1 Hc]. rewrite Hc. unfold cfg_wakes.
+      destruct Hin as [<-|[<-|[<-|[<-|[<-|[]]]]]].
+      + left. reflexivity.
+      + right. left. reflexivity.
+      + right. right. left. reflexivity.
+      + apply in_or_app. right. apply in_or_app. right. left. reflexivity.
+      + apply in_or_app. right. apply in_or_app. right. right. left. reflexivity.
+  Qed.
+
+  Lemma cfg_stays (w : world) (e : eff) t : is_Some (cfgs w !! t) -> is_Some (cfgs (apply_eff w e) !! t).
+  Proof.
+    intros Hs. rewrite cfgs_apply_eff.
+    destruct e as [i T|k P|k P|t0 c0|t0 c0|t0 v|t0 v|c0 t0|c0|ev]; try exact Hs;
+      destruct (cfgs w !! t0) eqn:E; try exact Hs;
+      (destruct (decide (t0 = t)) as [->|Hne]; [rewrite lookup_insert; eexists; reflexivity|rewrite lookup_insert_ne by exact Hne; exact Hs]).
+  Qed.
+
+  Lemma lands_stays (w : world) (e0 e : eff) : lands w e -> lands (apply_eff w e0) e.
+  Proof. destruct e; cbn [lands]; try (intros; exact I). apply cfg_stays. Qed.
+
+  Lemma apply_effs_owners (es : list eff) : forall (w : world) e c,
+    In e es -> lands w e -> In c (owners e) -> In c (snd (apply_effs w es)).
+  Proof.
+    induction es as [|e0 r IH]; intros w e c Hin Hl Hc; [destruct Hin|].
+    cbn. destruct (apply_effs (apply_eff w e0) r) as [w' q] eqn:E. cbn.
+    apply in_or_app. destruct Hin as [->|Hin].
+    - left. apply wakes_owners; assumption.
+    - right. specialize (IH (apply_eff w e0) e c Hin (lands_stays w e0 e Hl) Hc). rewrite E in IH. exact IH.
+  Qed.
+
+  (* after the delivery of any pending id, the owners and readers of every record it wrote are pending *)
+  Theorem delivery_wakes_owners (s : qworld) n o c0 e c :
+    nth_error (queue s) n = Some c0 -> In e (fst (reconcile o (qw s) c0)) -> lands (qw s) e -> In c (owners e) ->
+    In c (queue (qstep s (QDeliver n o))).
+  Proof.
+    intros Hn Hin Hl Hc. cbn [Proto2Queue.qstep]. rewrite Hn.
+    destruct (reconcile o (qw s) c0) as [es r] eqn:Er. cbn in Hin.
+    pose proof (apply_effs_owners es (qw s) e c Hin Hl Hc) as H.
+    destruct (apply_effs (qw s) es) as [w' q]. cbn in *.
+    apply in_or_app. right. apply in_or_app. left. exact H.
   Qed.
 
   (** * Records only move forward *)
